@@ -206,7 +206,8 @@ CLAIMED = {
         ref="6/C10", engine="body"),
     "C14": dict(
         text="Lean 4 theorems over executable models of the transformation functions (change-report soundness per "
-             "transformation, encode/decode identities, idempotence, multiMatch completeness and soundness for arbitrary "
+             "transformation, the encode/decode identities of the statement — hexDecode∘hexEncode, urlDecode∘urlEncode, base64Decode∘base64Encode "
+             "(strict and forgiving decoder) —, idempotence of trim/trimLeft/trimRight/removeNulls/removeWhitespace/compressWhitespace, multiMatch completeness and soundness for arbitrary "
              "transformation lists; every byte string, every list length), tied to /repo on every run by differential execution "
              "of the real functions against the models (`tf`, `tfchain`); the monitor predicate is evaluated on every observed "
              "output, including transformations that are not modelled.",
@@ -214,7 +215,8 @@ CLAIMED = {
              "decoders not yet in lean/Coraza/Model/Transformations.lean / Transformations2.lean / UrlDecodeUni.lean (modelled there: "
              "lowercase, uppercase, trim*, removeNulls, replaceNulls, length, hexEncode/Decode, urlEncode/Decode, none, urlDecodeUni "
              "with its best-fit table translated from the Go source on every run, jsDecode, cmdLine, removeCommentsChar, "
-             "compressWhitespace and removeWhitespace on ASCII input).",
+             "compressWhitespace and removeWhitespace on ASCII input, escapeSeqDecode, cssDecode, removeComments, replaceComments, "
+             "base64Encode/Decode/DecodeExt).",
         ref="6/C14", engine="tf,tfchain"),
     "C15": dict(
         text="Lean 4 theorems: each modelled operator equals its declarative predicate for all arguments and inputs (substring/"
